@@ -329,7 +329,27 @@ def _run_task(task):
     data = _make_data(task["data"], task["n_points"], task["n_samples"], task["seed"], task["outlier_prob"])
     crash = None
     try:
-        with np.errstate(all="ignore"):
+        if task.get("mode") == "library":
+            # library-style history: particle-Gibbs sweeps with the concentration changed between sweeps and NO cache clear
+            # (run.py clears the proposal caches every sweep, a library user need not)
+            from pv.kernels import make_kernel, make_tree_dist
+            from phyclone.mcmc.particle_gibbs import ParticleGibbsTreeSampler
+            from phyclone.tree import Tree
+
+            rng = np.random.default_rng(task["seed"])
+            td = make_tree_dist(1.0)
+            k = make_kernel(task["proposal"], td, rng, 0.1 if task["outlier_prob"] > 0 else 0.0, True)
+            pg = ParticleGibbsTreeSampler(k, rng, num_particles=task["num_particles"], resample_threshold=0.5)
+            tree = Tree.get_single_node_tree(data)
+            alphas = [1.0, 2.5, 1.0, 0.4, 2.5, 1.0]
+            with np.errstate(all="ignore"):
+                for i in range(task["num_iters"]):
+                    td.prior.alpha = alphas[i % len(alphas)]
+                    tree = pg.sample_tree(tree)
+                    tree.relabel_nodes()
+            res = {"trace": [{"alpha": a} for a in alphas]}
+        else:
+          with np.errstate(all="ignore"):
             res = runs.run_chain(data, ["S%d" % i for i in range(task["n_samples"])], seed=task["seed"], proposal=task["proposal"], num_particles=task["num_particles"], resample_threshold=0.5, outlier_prob=task["outlier_prob"], subtree_update_prob=task["subtree"], burnin=2, num_iters=task["num_iters"], concentration_update=True)
         n_alpha = len({float(e["alpha"]) for e in res["trace"]})
     except Exception as e:
@@ -446,6 +466,10 @@ def run(ctx):
                     tasks.append({"data": data, "proposal": proposal, "outlier_prob": op, "n_points": ctx.rng.randint(5, 8) if proposal != "fully-adapted" else ctx.rng.randint(5, 6), "n_samples": ctx.rng.randint(1, 2), "num_particles": ctx.rng.choice([6, 10] if ctx.quick else [6, 10, 20]), "num_iters": 8 if ctx.quick else 15, "subtree": ctx.rng.choice([0.0, 0.3]), "seed": ctx.rng.randrange(10**6)})
     for proposal in (("semi-adapted",) if ctx.quick else ("semi-adapted", "fully-adapted")):
         tasks.append({"data": "binomial-deep", "proposal": proposal, "outlier_prob": 0.0, "n_points": 6, "n_samples": 2, "num_particles": 8, "num_iters": 5, "subtree": 0.0, "seed": ctx.rng.randrange(10**6)})
+    for proposal in ("semi-adapted", "fully-adapted", "bootstrap"):
+        for op in (0.0, 0.1):
+            for s in range(1 if ctx.quick else 6):
+                tasks.append({"mode": "library", "data": "rational", "proposal": proposal, "outlier_prob": op, "n_points": ctx.rng.randint(4, 6), "n_samples": 1, "num_particles": 8, "num_iters": 6 if ctx.quick else 12, "subtree": 0.0, "seed": ctx.rng.randrange(10**6)})
     tasks[0]["keylog"] = 1500
     ctx.log("%d shadowed chain runs" % len(tasks))
     total = {}
